@@ -218,6 +218,29 @@ def real_pool_smoke(c, rng, n):
         plan = [rng.choice(['ok', 'ok', 'convert_none', 'rpc_error', 'convert_raises']) for _ in range(k)]
         sent = []
         main = threading.get_ident()
+        # the application thread that hits the tracepoint: the main thread, a plain thread, or a worker of the
+        # application's OWN executor (whose threads are named like the agent's workers: "ThreadPoolExecutor-N_M")
+        where = ('main', 'thread', 'app_pool')[it % 3]
+        app_idents = set()
+        handover_errors = []
+
+        def on_app_thread(fn):
+            def body():
+                app_idents.add(threading.get_ident())
+                try:
+                    fn()
+                except BaseException as ex:       # a failing conversion or send belongs to the worker, not to this thread
+                    handover_errors.append(repr(ex))
+            if where == 'main':
+                body()
+            elif where == 'thread':
+                t_ = threading.Thread(target=body, name='app-worker')
+                t_.start()
+                t_.join(30)
+            else:
+                from concurrent.futures import ThreadPoolExecutor
+                with ThreadPoolExecutor(max_workers=1) as app_pool:
+                    app_pool.submit(body).result(30)
 
         class Snap:
             def __init__(self, i):
@@ -243,8 +266,7 @@ def real_pool_smoke(c, rng, n):
         chan.script('/send', answer)
         push_mod.convert_snapshot = convert
         try:
-            for i in range(k):
-                ps.push_snapshot(Snap(i))
+            on_app_thread(lambda: [ps.push_snapshot(Snap(i)) for i in range(k)])
             try:
                 th.flush()
                 fl = 'returned'
@@ -268,25 +290,102 @@ def real_pool_smoke(c, rng, n):
             push_mod.convert_snapshot = orig_convert
             th._pool.shutdown(wait=True)
         c.traces_validated += 1
-        c.note_case(key=('real-pool', tuple(plan)), nontrivial=any(p != 'ok' for p in plan))
+        c.note_case(key=('real-pool', where, tuple(plan)), nontrivial=any(p != 'ok' for p in plan))
         exp = sorted(i for i, p in enumerate(plan[:k]) if p in ('ok', 'rpc_error'))
         got = sorted(i for i, _ in sent if i < k)
         bad = None
-        if fl != 'returned':
+        if handover_errors:
+            bad = 'handing a snapshot over raised on the application thread (%s): %s' % (where, handover_errors[:2])
+        elif fl != 'returned':
             bad = 'flush %s' % fl
         elif late != 'refused' or late_sent:
             bad = 'a snapshot handed over after flush was %s and sent %d time(s)%s' % (
                 late, len(late_sent), ' on the application thread' if main in late_sent else '')
         elif got != exp:
             bad = 'sent %s expected %s' % (got, exp)
-        elif any(t == main for _, t in sent):
-            bad = 'a snapshot was sent on the application thread'
+        elif any(t == main or t in app_idents for _, t in sent):
+            bad = 'a snapshot was sent on the application thread that handed it over (%s)' % where
         elif th._pending:
             bad = 'pending not empty after flush: %s' % list(th._pending)
         if bad:
-            path = c.save_replay({'direction': 'C2S', 'kind': 'real-pool', 'plan': plan, 'what': bad})
+            path = c.save_replay({'direction': 'C2S', 'kind': 'real-pool', 'plan': plan, 'handed_over_on': where, 'what': bad})
             c.violation('real pool: %s (plan %s)' % (bad, plan), path)
             return
+
+
+def wall_clock_leg(c):
+    """Flush waits for the accepted tasks - whatever the WALL clock does meanwhile (set forward by an hour, set back):
+    waiting is a matter of elapsed time. Two uploads are held in the channel; the wall clock jumps with every reading;
+    flush is still waiting after half a second and returns once both uploads are through."""
+    import time as time_mod
+    from deep.push import PushService
+    from deep.task import TaskHandler
+    import deep.push as push_mod
+    from deepproto.proto.tracepoint.v1.tracepoint_pb2 import Snapshot
+    for label, jump in (('set forward one hour', 3600.0), ('set back one hour', -3600.0), ('steady', 0.0)):
+        chan = fakes.FakeChannel()
+        th = TaskHandler()
+        ps = PushService(fakes.FakeGrpc(chan, metadata=[]), th)
+        release = threading.Event()
+        sent = []
+
+        def answer(req):
+            release.wait(20)
+            sent.append(int.from_bytes(req.ID, 'big'))
+            return None
+        chan.script('/send', answer)
+
+        class Snap:
+            def __init__(self, i):
+                self.i = i
+                self.id = i
+        orig_convert = push_mod.convert_snapshot
+        push_mod.convert_snapshot = lambda s_: Snapshot(ID=s_.i.to_bytes(16, 'big'))
+        real_time = time_mod.time
+        offset = [0.0]
+        flusher = {}
+
+        def wall():
+            if threading.get_ident() == flusher.get('id'):
+                offset[0] += jump          # every reading taken by the flushing thread sees the clock moved again
+            return real_time() + offset[0]
+        out = {}
+        try:
+            for i in range(2):
+                ps.push_snapshot(Snap(i))
+
+            def fl():
+                flusher['id'] = threading.get_ident()
+                try:
+                    th.flush()
+                    out['flush'] = 'returned'
+                except BaseException as ex:
+                    out['flush'] = 'raised %r' % (ex,)
+                out['sent_at_return'] = len(sent)
+            time_mod.time = wall
+            t_ = threading.Thread(target=fl)
+            t_.start()
+            t_.join(0.5)
+            early = not t_.is_alive()
+            release.set()
+            t_.join(30)
+        finally:
+            time_mod.time = real_time
+            push_mod.convert_snapshot = orig_convert
+            release.set()
+            th._pool.shutdown(wait=True)
+        bad = None
+        if early:
+            bad = 'flush returned while both accepted uploads were still running (%s sent)' % out.get('sent_at_return')
+        elif out.get('flush') != 'returned':
+            bad = 'flush %s' % out.get('flush', 'did not return')
+        elif out.get('sent_at_return') != 2 or sorted(sent) != [0, 1]:
+            bad = 'flush returned with %s of 2 uploads through (sent %s)' % (out.get('sent_at_return'), sent)
+        c.traces_validated += 1
+        c.note_case(key=('wall-clock', label), nontrivial=True)
+        if bad:
+            path = c.save_replay({'direction': 'C2S', 'kind': 'wall-clock-during-flush', 'clock': label, 'what': bad})
+            c.violation('wall clock %s while flush waits: %s' % (label, bad), path)
 
 
 def deep_wiring_leg(c):
@@ -562,6 +661,7 @@ def run(c):
     explore(c, [SCRIPTS[6]] + SCRIPTS[1:3] if quick else [SCRIPTS[6]] + SCRIPTS[:5], line_level=True, max_preemptions=1 if quick else 2,
             max_runs=200 if quick else 3000, kind='line-schedule')
     real_pool_smoke(c, rng, 15 if quick else 150)
+    wall_clock_leg(c)
     deep_wiring_leg(c)
     isolation_leg(c, rng, 60 if quick else 3000)
 
